@@ -48,6 +48,7 @@ def run(ctx: Ctx) -> None:
     r5(ctx, roles)
     r6(ctx, roles)
     r7(ctx, roles)
+    r8(ctx, roles)
 
 
 # ---------------------------------------------------------------- inventory
@@ -514,3 +515,43 @@ def r7(ctx: Ctx, roles) -> None:
     ctx.ob("C08.R7", dis, "package callers of the graceful close are located", len(sites) >= 1, f"{len(sites)}")
     for fn, c, direct in sites:
         ctx.ob("C08.R7", fn, f"{norm(c)[:50]} is awaited directly (or the closer runs in a finally covering the awaits)", direct or protected, "the coroutine is handed to something that may cancel it between its awaits; its closer is the last statement, not a finally: the connection would be abandoned half closed", node=c)
+
+
+# ----------------------------------------------------------------------- R8
+# library operations the release sequence is known to use and that do not raise on an object in any state
+# (confirmed by reading: handle.cancel(), transport/socket close(), set.clear(), guarded future completion, logging)
+CLOSER_SAFE_LIB = {"cancel", "close", "clear", "set_exception", "set_result", "done", "cancelled", "debug", "info", "warning", "error", "isEnabledFor", "copy", "discard"}
+CLOSER_SAFE_BUILTINS = {"str", "repr", "isinstance", "type", "len", "bool", "super", "list", "tuple"}
+
+
+def r8(ctx: Ctx, roles) -> None:
+    """The release sequence cannot be cut short: CLOSED is set first and the guard at the top makes a second attempt a
+    no-op, so a library call that raises half-way (socket.shutdown() on a reset connection, say) would leave whatever
+    comes after it - timers, waiters, the stop callback - unreleased for good.  Every library call in the closer and
+    the package functions it calls is therefore one of the operations listed above."""
+    res = resolver(ctx)
+    seen: list[Func] = []
+    todo = [roles.closer]
+    bad = []
+    n_calls = 0
+    while todo:
+        f = todo.pop()
+        if f in seen:
+            continue
+        seen.append(f)
+        for c in own_nodes(f.node):
+            if not isinstance(c, ast.Call):
+                continue
+            k = res.callees(f, c)
+            if k.kind == "pkg":
+                todo += [x for x in k.funcs if (x.cls is not None and x.cls.key == roles.conn.key) or x.module.name.startswith("_frame_helper")]
+                continue
+            if k.kind in ("ctor", "value"):
+                continue  # building an error object; the user's stop callback (last statement, C07)
+            n_calls += 1
+            name = c.func.attr if isinstance(c.func, ast.Attribute) else (c.func.id if isinstance(c.func, ast.Name) else norm(c.func))
+            ok = (isinstance(c.func, ast.Attribute) and name in CLOSER_SAFE_LIB) or (isinstance(c.func, ast.Name) and name in CLOSER_SAFE_BUILTINS)
+            if not ok:
+                bad.append(f"{f.qualname}: {norm(c)[:50]}")
+    ctx.count("C08.R8", n_calls, 12, "library calls on the release path")
+    ctx.ob("C08.R8", roles.closer, f"every library call on the release path is a non-raising release operation ({len(seen)} functions)", not bad, f"{bad[:3]}: if it raises, the rest of the release sequence and the stop callback are skipped, and the CLOSED guard makes every later close a no-op")
